@@ -238,6 +238,27 @@ pub fn inputs(tier: &str, seed: u64) -> Vec<(String, String)> {
         v.push(("tmpl".into(), format!("{{{{ a /*\n{}*/ b }}}}", a)));
         v.push(("tmpl".into(), format!("<v a=\"{{{{ a /*\n{}*/ # }}}}\" b b/>", a)));
     }
+    // character references: `&` followed by every mix of ASCII / non-ASCII letters, digits, `#`, `x` and `;` (the scanners
+    // slice the reference by byte offsets), in text, attribute values, static-string attributes and next to bindings
+    let ent_alpha = ['a', 'Z', 'x', 'X', '9', '0', '#', ';', '&', 'é', 'ß', '中', 'Ω', '２', '²', '½', '\u{1f600}', '\u{301}', 'ǅ', ' '];
+    let n_ent = if thorough { 6000 } else { 900 };
+    for i in 0..n_ent {
+        let len = 1 + rng.below(6);
+        let mut e = String::from("&");
+        for _ in 0..len {
+            e.push(*rng.pick(&ent_alpha));
+        }
+        if rng.chance(2, 3) {
+            e.push(';');
+        }
+        v.push(("tmpl".into(), match i % 5 {
+            0 => format!("<v>R{}D</v>", e),
+            1 => format!("<v title=\"{}\"/>", e),
+            2 => format!("<template name=\"{}\"/><v wx:key=\"{}\" wx:for=\"{{{{l}}}}\"/>", e, e),
+            3 => format!("<v>{}{{{{a}}}}{}</v>", e, e),
+            _ => format!("<v a='{}' b={} />{}", e, e.replace(' ', ""), e),
+        }));
+    }
     // deep nesting (up to 64) of elements, brackets and operator chains
     for d in [8usize, 32, 64] {
         v.push(("tmpl".into(), format!("{}x{}", "<v>".repeat(d), "</v>".repeat(d))));
@@ -362,6 +383,54 @@ pub fn scale(tier: &str, _seed: u64, out: &mut Out) {
             let ms = t0.elapsed().as_secs_f64() * 1000.0;
             out.raw(&format!("SCALE {} n={} bytes={} ms={:.2} ok={}", name, n, src.len(), ms, r.is_ok()));
             out.flush();
+        }
+    }
+    // depth-scaled expression families: one binding whose expression nests k levels (k <= 64, the bound of the property) in
+    // every recursive position of the expression grammar; the generated code must stay within a constant factor of the
+    // input (a sub-expression written twice by the generator doubles the output per level)
+    let chain = |op: &str, k: usize| -> String { (0..k).map(|i| format!("a{}", i % 7)).collect::<Vec<_>>().join(op) };
+    let depth_families: Vec<(&str, Box<dyn Fn(usize) -> String>)> = vec![
+        ("nullish-left", Box::new(move |k| chain(" ?? ", k))),
+        ("nullish-right", Box::new(|k| format!("{}z{}", "a ?? (".repeat(k), ")".repeat(k)))),
+        ("or-left", Box::new(move |k| chain(" || ", k))),
+        ("and-left", Box::new(move |k| chain(" && ", k))),
+        ("plus-left", Box::new(move |k| chain(" + ", k))),
+        ("cond-right", Box::new(|k| format!("{}z", "a ? b : ".repeat(k)))),
+        ("cond-middle", Box::new(|k| format!("{}z{}", "a ? ".repeat(k), " : c".repeat(k)))),
+        ("cond-test", Box::new(|k| format!("{}a{}", "(".repeat(k), " ? b : c)".repeat(k)))),
+        ("member-chain", Box::new(|k| format!("a{}", ".b[c]".repeat(k)))),
+        ("member-of-cond", Box::new(|k| format!("{}a{}", "(".repeat(k), " ? o : p).x".repeat(k)))),
+        ("index-nest", Box::new(|k| format!("{}a{}", "l[".repeat(k), "]".repeat(k)))),
+        ("call-nest", Box::new(|k| format!("{}a{}", "f(".repeat(k), ")".repeat(k)))),
+        ("call-chain", Box::new(|k| format!("f{}", "(a)".repeat(k)))),
+        ("unary", Box::new(|k| format!("{}a", "!-".repeat(k / 2 + 1)))),
+        ("array-nest", Box::new(|k| format!("{}a{}", "[".repeat(k), "]".repeat(k)))),
+        ("object-nest", Box::new(|k| format!("{}a{}", "{x: ".repeat(k), "}".repeat(k)))),
+        ("spread-nest", Box::new(|k| format!("{}a{}", "[...".repeat(k), "]".repeat(k)))),
+        ("nullish-of-member", Box::new(|k| format!("{}a{}", "(".repeat(k), ".x ?? b)".repeat(k)))),
+        ("typeof-paren", Box::new(|k| format!("{}a{}", "typeof (".repeat(k), ")".repeat(k)))),
+    ];
+    let contexts: Vec<(&str, Box<dyn Fn(&str) -> String>)> = vec![
+        ("text", Box::new(|e| format!("<v>{{{{ {} }}}}</v>", e))),
+        ("attr", Box::new(|e| format!("<v a=\"{{{{ {} }}}}\"/>", e))),
+        ("for", Box::new(|e| format!("<v wx:for=\"{{{{ {} }}}}\" wx:key=\"k\" model:x=\"{{{{ item.x }}}}\">{{{{ item }}}}</v>", e))),
+        ("data", Box::new(|e| format!("<template is=\"t\" data=\"{{{{ x: {} }}}}\"/>", e))),
+    ];
+    for (name, f) in depth_families.iter() {
+        for (cname, ctx) in contexts.iter() {
+            for k in [2usize, 4, 8, 12, 16, 20, 24, 32, 48, 62] {
+                let src = ctx(&f(k));
+                let t0 = std::time::Instant::now();
+                let r = catch(std::panic::AssertUnwindSafe(|| exercise_template("p", &src)));
+                let ms = t0.elapsed().as_secs_f64() * 1000.0;
+                let outb = r.as_ref().map(|x| *x).unwrap_or(0);
+                out.raw(&format!("DEPTH {}/{} k={} bytes={} out={} ms={:.2} ok={}", name, cname, k, src.len(), outb, ms, r.is_ok()));
+                out.flush();
+                // a family that explodes is reported by the driver from the points so far: stop before it exhausts memory
+                if outb > 4000 * src.len() + 2_000_000 || ms > 4000.0 {
+                    break;
+                }
+            }
         }
     }
     let css_families: Vec<(&str, Box<dyn Fn(usize) -> String>)> = vec![
